@@ -47,6 +47,18 @@ def run_property(pid, seed, tier):
         seen = sum(1 for k in s['impl'])
         if expected == 0 or seen < 0.6 * expected:
             rel['degenerate'] = 'only %d of %d generated inputs reached the implementation (generator/rustc rejected the rest)' % (seen, expected)
+        if pid in ('C01', 'C04'):
+            # the terminal matchers in-process: exhaustive small-scope table (character-level reading for C01,
+            # boundary / no-panic for C04)
+            from . import other
+            mt = other.run_matchers(seed, tier, pid)
+            rel['evaluations'] += mt['evaluations']
+            rel['nontrivial'] |= {('matcher',) + tuple(k) for k in mt['nontrivial']}
+            rel['strict'] += mt['strict']
+            rel['prop'] += mt['prop'] if pid == 'C04' else [dict(v, what='terminal matcher does not match exactly the documented characters: ' + v['what']) for v in mt['strict']]
+            rel['samples'] = rel['samples'][:3] + mt['samples'][:2]
+            rel['distribution']['matcher table operations'] = mt['evaluations']
+            rel['rule'] += ' + unitdiff: ' + mt['rule']
         rel['wall_s'] = time.time() - t0
         # generator-level failures on well-formed grammars are reported by C03/C15; here they only shrink the sample
         return rel
@@ -78,7 +90,7 @@ def run_property(pid, seed, tier):
                 c = s['case_by_id'][cid]
                 rel['prop'].append(dict(kind='compile', case=cid, grammar=c['text'], sexp=c['sexp'], what='generated code rejected by rustc: ' + msg[-300:]))
             for cid, v in s['gen'].items():
-                if v[0] != 'OK':
+                if v[0] != 'OK' and 'expect_reject' not in s['case_by_id'][cid]['tags']:
                     c = s['case_by_id'][cid]
                     rel['prop'].append(dict(kind='compile', case=cid, grammar=c['text'], sexp=c['sexp'], what='well-formed grammar not compiled by the generator: %s %s' % (v[0], v[1][:200])))
             rel['evaluations'] += len(s['cases'])
